@@ -1,6 +1,19 @@
-(* Ops/C15.v — protocol entry points for property C15 (stub until the model is built). *)
-From Coq Require Import List String.
-From PrefVerif Require Import Lib.Val.
+(* Ops/C15.v — protocol entry points for property C15 (label and storage-order invariance).
+   The correspondence of C15 is metamorphic on the implementation; on the model side it only needs the witness
+   checkers the sibling properties already export (c03.check_axis, c11.check_axis, c04.check, c13.check,
+   c05.*_check, c12.cert_*, c18.check, c19.check).  The ops below expose the relabelling helpers of Model/Relabel.v
+   so that the harness can cross-check its own twin construction against the model's.
+     c15.map_profile ((a fa) ...) profile -> profile   (orders as class lists; unknown labels are left unchanged) *)
+From Coq Require Import List NArith String.
+From PrefVerif Require Import Lib.Val Model.Relabel.
 Import ListNotations.
+Open Scope string_scope.
 
-Definition ops : optable := [].
+Definition lookup_f (tbl : list (N * N)) (a : N) : N :=
+  match find (fun e => N.eqb (fst e) a) tbl with Some e => snd e | None => a end.
+
+Definition op_map_profile (v : val) : val :=
+  let f := lookup_f (dlist (dpair dN dN) (dnth 0 v)) in
+  elist (elist (elist eN)) (map_profile f (dlist (dlist (dlist dN)) (dnth 1 v))).
+
+Definition ops : optable := [ ("c15.map_profile", op_map_profile) ].
